@@ -56,8 +56,7 @@ def addr_norm(e):
             return e
 
 
-def rule_no_over_read(ctx):
-    R = "C17/no-over-read"
+def rule_no_over_read(ctx, R="C17/no-over-read"):
     n = 0
     for b in ctx.prog.bodies:
         reads = list(b.calls(lambda c: c.is_("nix::sys::ptrace::read")))
@@ -99,8 +98,7 @@ def rule_no_over_read(ctx):
     ctx.floor(R, "PTRACE_PEEKDATA sites", n, 2)
 
 
-def rule_args(ctx):
-    R = "C17/args"
+def rule_args(ctx, R="C17/args"):
     # vmem
     b = ctx.body(R, MR + "::vmem")
     if b is not None:
@@ -153,12 +151,21 @@ def rule_args(ctx):
         tail = [(x, t) for x, t in reads if not chunk_loop(x)]
         # tail: every peeked word is copied with matching windows: last[max(S,A)-S .. min(E,A+8)-S] <- word[max(S,A)-A .. min(E,A+8)-A]
         for bi, t in tail:
+            if aligned_form(addr_norm(o.call_args(bi)[1])) and not any(bi in body for body in loops.values()):
+                ctx.violated(R, ("ptrace", "tail-covered"), b.where(bi), "the sub-word tail is fetched with a single aligned PEEKDATA outside any loop: a tail that does not start on a word boundary "
+                             "can straddle two aligned words, and the bytes in the second word are never written although the full length is reported")
             ims = [(x, o.call_args(x)) for x, t2 in b.calls(lambda c: (c.short or "").split("::")[-1] in ("index_mut", "index")) if witness_path(b, bi, {x})]
             dst = [a for x, a in ims if any(s_[0] == "call" and s_[1].split("::")[-1] == "into_remainder" for s_ in walk(a[0])) and strip(a[1])[0] == "agg"]
             srcw = [a for x, a in ims if any(s_[0] == "call" and s_[1].split("::")[-1] == "to_ne_bytes" for s_ in walk(a[0])) and strip(a[1])[0] == "agg"]
             if len(dst) != 1 or len(srcw) != 1:
                 if aligned_form(addr_norm(o.call_args(bi)[1])):
                     ctx.unproven(R, ("ptrace", "tail-window"), b.where(bi), "cannot find the destination/source windows of the aligned tail copy")
+                continue
+
+            dd, sd = dict(strip(dst[0][1])[3]), dict(strip(srcw[0][1])[3])
+            if not ({"start", "end"} <= set(dd) and {"start", "end"} <= set(sd)):
+                ctx.unproven(R, ("ptrace", "tail-window"), b.where(bi), "the tail copy windows are not both start..end ranges (destination %s, source %s): cannot show that every requested tail byte is copied from the word that holds it"
+                             % (show(strip(dst[0][1]))[:80], show(strip(srcw[0][1]))[:80]))
                 continue
 
             def leafv(e):
@@ -237,8 +244,7 @@ def rule_args(ctx):
             ctx.check(any(s == ("param", 3) for s in walk(pay)) and pay[0] in ("len", "call"), R, ("ptrace", "returns-len"), b.where(ob, si), "on success dst.len() is returned", "ptrace strategy returns %s" % show(pay)[:80])
 
 
-def rule_prefix_only(ctx):
-    R = "C17/prefix-only"
+def rule_prefix_only(ctx, R="C17/prefix-only"):
     b = ctx.body(R, MR + "::read_to_vec")
     if b is None:
         return
